@@ -60,16 +60,16 @@ def collect_mt(o, pid, tier):
 
 def collect_cheng(o, pid, tier):
     """Cheng BB / BC kernels behind Beta<f64>, pointwise: at the anchors of spec/ChengTable.tla (14 parameter pairs incl. both orders, a = b, min = 1, min < 1 < max;
-    first uniform u1 = j/16) the value returned is the documented function of u1 and the accepting second uniform words are a prefix of the relative length the
+    first uniform u1 = j/16; thorough: 28 pairs, u1 = j/64) the value returned is the documented function of u1 and the accepting second uniform words are a prefix of the relative length the
     documented tests give - the density ratio that makes the method exact (Beta<f32> has the exact law check)."""
     wd = workdir(pid, 'traces')
     tr = wd / 'cheng.ndjson'
-    r = tlc('MCCheng', 'MCCheng.cfg', pid, 'cheng_cases', workers=1, timeout=1200, heap='2g', pipe_to=[str(RDV), 'btpe-drive', '--out', str(tr)])
+    r = tlc('MCCheng', 'MCCheng.cfg', pid, 'cheng_cases', workers=1, timeout=1200, heap='2g', env={'TIER': tier}, pipe_to=[str(RDV), 'btpe-drive', '--out', str(tr)])
     require_ok(r, 'MCCheng')
     s = json.loads(r.consumer_out.strip().splitlines()[-1])
     if s['events'] < 120:
         raise ToolError('btpe-drive (Cheng): too few events: %s' % s)
-    rr = tlc('TraceBtpe', 'TraceBtpe.cfg', pid, 'cheng_trace', trace_mode=True, env={'TRACE': tr}, timeout=1200, heap='4g')
+    rr = tlc('TraceBtpe', 'TraceBtpe.cfg', pid, 'cheng_trace', trace_mode=True, env={'TRACE': tr, 'TIER': tier}, timeout=1200, heap='4g')
     require_ok(rr, 'TraceBtpe (Cheng)')
     if rr.rejected or rr.violated:
         raise ToolError('cheng trace not consumed: %s' % (rr.rejected or rr.violated))
